@@ -25,6 +25,7 @@ type c06Case struct {
 	PadPat  int     `json:"padpat"`
 	IVPat   int     `json:"ivpat"`
 	Warm    int     `json:"warm"` // lib2ref: the sending key object has carried a long (1) / an empty (2) message before
+	Env     []int   `json:"env,omitempty"` // random-source answers during protection (explorer choices)
 }
 
 func init() {
@@ -62,6 +63,7 @@ func padBytes(n, pat int) []byte {
 
 func runC06(c *engine.Ctx) {
 	c06Boundary(c)
+	c06Env(c)
 	patterns := []int{2, 3 + int(c.Seed%5)}
 	if c.Thorough() {
 		patterns = []int{0, 1, 2, 3 + int(c.Seed%5)}
@@ -99,6 +101,29 @@ func runC06(c *engine.Ctx) {
 			}
 		}
 	})
+}
+
+// c06Run is the explorer run that drives the random source during an environment exploration (nil otherwise).
+var c06Run *engine.Run
+
+// c06Env: whatever the random source answers during protection (degenerate content, short reads, failures),
+// a datagram that EncodeEncrypt does return must be accepted and read by the independent peer.
+func c06Env(c *engine.Ctx) {
+	al := univ.Alphabet()
+	for ai := 0; ai < len(al); ai += 4 {
+		for si := 0; si < 9; si++ {
+			if !c.Mine() {
+				continue
+			}
+			m := ref.Msg{H: univ.BaseHdr, P: []ref.Payload{al[ai].P}}
+			st := engine.Explore(2, 0, func(r *engine.Run) {
+				c06Run = r
+				evalC06(c, c06Case{K: "lib2ref", Name: al[ai].Name + "(env)", M: m, Suite: si, Pattern: 2, SenderI: (ai+si)%2 == 0})
+				c06Run = nil
+			}, func(r *engine.Run) {})
+			c.Count("env_executions", st.Executions)
+		}
+	}
 }
 
 func c06Boundary(c *engine.Ctx) {
@@ -141,12 +166,22 @@ func evalC06(c *engine.Ctx, cs c06Case) {
 				return
 			}
 		}
-		seam := engine.NewSeam(nil, nil)
+		seam := engine.NewSeam(c06Run, []int{engine.AnsA, engine.AnsZero, engine.AnsFF, engine.AnsShort, engine.AnsErr})
+		if c06Run == nil && len(cs.Env) > 0 {
+			seam.Run = engine.NewReplayRun(cs.Env)
+		}
 		seam.Stream = uint64(cs.Pattern)
 		restore := engine.Install(seam)
 		var b []byte
 		pi := engine.Catch(func() { b, err = ike.EncodeEncrypt(lm, sa, roleOf(cs.SenderI)) })
 		restore()
+		if seam.Run != nil {
+			cs.Env = seam.Run.Choices()
+		}
+		if seam.Failed() && err != nil {
+			c.Count("protection_refused_on_source_failure", 1)
+			return
+		}
 		if pi != nil {
 			c.Violate(pi.Sig(), "EncodeEncrypt panics: "+pi.Value, cs)
 			return
